@@ -90,6 +90,21 @@ def gen_cases(rng, tier):
             spl[side] = {"k": "trans", "f": spl[side], "x": spec.rfloat(rng, 0.1, 1.0)}
           ents[0][-1] = spl
           break
+    if i % 11 == 6:
+      # labels and leading whole-number parameters that read alike when glued together: 'rep 12 0.5' and 'rep_12 0.5'
+      n_ = rng.choice([12, 3, 7])
+      m["forms"] = list(m.get("forms") or []) + [
+        {"name": "rep", "params": ["r", "n", "k"], "breaks": [], "expr": ["+", ["*", ["var", "n"], ["var", "k"]], ["*", ["num", 0.25], ["var", "r"]]]},
+        {"name": "rep_%d" % n_, "params": ["r", "k"], "breaks": [], "expr": ["-", ["*", ["var", "k"], ["var", "r"]], ["num", 100.0]]}]
+      kk = spec.rfloat(rng, 0.2, 2.0, 2)
+      a_, b_ = {"k": "custom", "name": "rep", "args": [n_, kk]}, {"k": "custom", "name": "rep_%d" % n_, "args": [kk]}
+      if rng.random() < 0.5:
+        a_, b_ = b_, a_
+      for key in ("pair", "density", "embed"):
+        ents = m.get(key) or []
+        if len(ents) >= 2:
+          ents[0][-1], ents[1][-1] = a_, b_
+          break
     shared = 0
     if i % 5 == 3:
       shared = spec.share_leading_range(rng, m)
